@@ -65,4 +65,8 @@ struct ExecResult {
 ExecResult run(std::function<void()> root, const ExecSpec& spec, std::vector<Event>* steps_out = nullptr);
 // which accesses count as "modelled" (consume a replay entry / are DFS decision points); default: all with addr != 0
 extern bool (*g_is_modelled)(const void*, int);
+// DFS decisions of the running execution mirrored into (shared) memory, so that a supervising process can continue the search after the
+// exploring process was lost (livelock, crash, deadlock): sink[0] = count (-1: overflow), then pairs (nalt, chosen)
+extern void (*g_on_abort)(const char* why, const std::vector<int>& trace);   // called (in the aborting thread) before an execution is abandoned: step budget exceeded
+extern volatile int* g_dec_sink; static const int DEC_SINK_MAX = 100000;
 }
